@@ -704,7 +704,7 @@ func showInJSON(env *env, out io.Writer, value any) error {
 	case time.Time:
 		_, err := w.WriteString("\"")
 		if err == nil {
-			_, err = w.WriteString(v.Format(time.RFC3339))
+			_, err = w.WriteString(v.Format(time.RFC3339Nano))
 		}
 		if err == nil {
 			_, err = w.WriteString("\"")
